@@ -1331,12 +1331,14 @@ class NNDescent:
             internal_rng_state = np.copy(rng_state)
 
             for i in numba.prange(query_points.shape[0]):
-                # Avoid races on visited if parallel
+                # Avoid races on visited and on the rng state if parallel
                 if parallel_search:
                     visited_nodes = np.zeros_like(visited)
+                    query_rng_state = internal_rng_state + i
                 else:
                     visited_nodes = visited
                     visited_nodes[:] = 0
+                    query_rng_state = internal_rng_state
 
                 if dist == alternative_dot or dist == alternative_cosine:
                     norm = np.sqrt((query_points[i] ** 2).sum())
@@ -1353,7 +1355,7 @@ class NNDescent:
                 # heapq.heapify(seed_set)
 
                 ############ Init ################
-                index_bounds = tree_search_closure(current_query, internal_rng_state)
+                index_bounds = tree_search_closure(current_query, query_rng_state)
                 candidate_indices = tree_indices[index_bounds[0] : index_bounds[1]]
 
                 n_initial_points = candidate_indices.shape[0]
@@ -1370,7 +1372,7 @@ class NNDescent:
                 if n_random_samples > 0:
                     for j in range(n_random_samples):
                         candidate = np.int32(
-                            np.abs(tau_rand_int(internal_rng_state)) % data.shape[0]
+                            np.abs(tau_rand_int(query_rng_state)) % data.shape[0]
                         )
                         if has_been_visited(visited_nodes, candidate) == 0:
                             d = np.float32(dist(data[candidate], current_query))
@@ -1517,12 +1519,14 @@ class NNDescent:
             internal_rng_state = np.copy(rng_state)
 
             for i in numba.prange(n_query_points):
-                # Avoid races on visited if parallel
+                # Avoid races on visited and on the rng state if parallel
                 if parallel_search:
                     visited_nodes = np.zeros_like(visited)
+                    query_rng_state = internal_rng_state + i
                 else:
                     visited_nodes = visited
                     visited_nodes[:] = 0
+                    query_rng_state = internal_rng_state
 
                 current_query_inds = query_inds[query_indptr[i] : query_indptr[i + 1]]
                 current_query_data = query_data[query_indptr[i] : query_indptr[i + 1]]
@@ -1541,7 +1545,7 @@ class NNDescent:
 
                 ############ Init ################
                 index_bounds = sparse_tree_search_closure(
-                    current_query_inds, current_query_data, internal_rng_state
+                    current_query_inds, current_query_data, query_rng_state
                 )
                 candidate_indices = tree_indices[index_bounds[0] : index_bounds[1]]
 
@@ -1571,7 +1575,7 @@ class NNDescent:
                 if n_random_samples > 0:
                     for j in range(n_random_samples):
                         candidate = np.int32(
-                            np.abs(tau_rand_int(internal_rng_state)) % n_index_points
+                            np.abs(tau_rand_int(query_rng_state)) % n_index_points
                         )
                         if has_been_visited(visited_nodes, candidate) == 0:
                             from_inds = data_inds[
